@@ -7,32 +7,53 @@ use super::vk::*;
 use crate::parser::tokenizer::util::{mnemonic_compare, mnemonic_match, mnemonic_split_index};
 use crate::parser::tokenizer::Token;
 
-#[kani::proof_for_contract(crate::parser::tokenizer::util::mnemonic_compare)]
+/// Contract of `mnemonic_compare`: requires spec_shape(def) && spec_cand(cand);
+/// ensures result == spec_compare(def, cand).
+#[kani::proof]
 #[kani::unwind(14)]
 pub fn mnemonic_compare_contract() {
     let d: [u8; 12] = kani::any();
     let c: [u8; 12] = kani::any();
     let def = any_prefix1(&d);
     let cand = any_prefix1(&c);
-    let _ = mnemonic_compare(def, cand);
+    kani::assume(spec_shape(def) && spec_cand(cand));
+    kani::cover!(spec_compare(def, cand) && cand.len() < def.len());
+    kani::cover!(def.len() == 12 && cand.len() == 12 && spec_compare(def, cand));
+    assert!(mnemonic_compare(def, cand) == spec_compare(def, cand), "C03/mnemonic_compare/equals-spec_compare");
 }
 
-#[kani::proof_for_contract(crate::parser::tokenizer::util::mnemonic_split_index)]
+/// Contract of `mnemonic_split_index`: splits at the start of the maximal trailing digit run,
+/// None when there is no such run or nothing before it; the parts are sub-slices of the input.
+#[kani::proof]
 #[kani::unwind(14)]
 pub fn mnemonic_split_index_contract() {
     let c: [u8; 12] = kani::any();
     let s = any_prefix(&c);
-    let _ = mnemonic_split_index(s);
+    let k = suffix_start(s);
+    kani::cover!(k > 0 && k < s.len());
+    match mnemonic_split_index(s) {
+        None => assert!(k == s.len() || k == 0, "C03/mnemonic_split_index/none-iff-no-suffix-or-all-digits"),
+        Some((a, b)) => {
+            assert!(k > 0 && k < s.len(), "C03/mnemonic_split_index/some-iff-proper-digit-suffix");
+            assert!(a.len() == k && b.len() == s.len() - k, "C03/mnemonic_split_index/split-at-maximal-digit-run");
+            assert!(a.as_ptr() == s.as_ptr() && b.as_ptr() == s[k..].as_ptr(), "C03/mnemonic_split_index/parts-are-subslices-of-input");
+        }
+    }
 }
 
-#[kani::proof_for_contract(crate::parser::tokenizer::util::mnemonic_match)]
+/// Contract of `mnemonic_match`: requires spec_shape(def) && spec_cand(cand);
+/// ensures result == spec_match(def, cand).
+#[kani::proof]
 #[kani::unwind(14)]
 pub fn mnemonic_match_contract() {
     let d: [u8; 12] = kani::any();
     let c: [u8; 12] = kani::any();
     let def = any_prefix1(&d);
     let cand = any_prefix1(&c);
-    let _ = mnemonic_match(def, cand);
+    kani::assume(spec_shape(def) && spec_cand(cand));
+    kani::cover!(spec_match(def, cand) && cand.len() > def.len());
+    kani::cover!(spec_match(def, cand) && cand.len() + 3 < def.len());
+    assert!(mnemonic_match(def, cand) == spec_match(def, cand), "C03/mnemonic_match/equals-spec_match");
 }
 
 /// The dispatcher's entry: mnemonic and character tokens match by `spec_match`, nothing else does.
@@ -54,6 +75,7 @@ pub fn match_program_header() {
 }
 
 #[kani::proof]
+#[kani::unwind(14)]
 pub fn match_program_header_other_tokens() {
     let c: [u8; 4] = kani::any();
     let n: u64 = kani::any();
